@@ -522,6 +522,7 @@ impl NHistory {
                 }
                 if self.connected.contains_key(&id) {
                     self.violate("C10", format!("ClientConnected for id {} which is already connected", id));
+                    self.violate("C05", format!("a second session was reported connected under client id {} while the first one is live: the address and user data the server answers for that id are those of the other token", id));
                 }
                 if let Some(a) = a {
                     if self.connected.values().any(|x| *x == a) {
